@@ -31,6 +31,14 @@ AUDITED = [
      "bounds is the fixed HISTOGRAM_BOUND_SIZE table built by new_histogram_bound (non-empty); idx < bounds.len() is tested before the access"),
     (r"^utils::vec_to_array", "panic", r"Expected a Vec of length",
      "called from MetricsInner::new with a Vec built from exactly SIZE_FOR_EACH_TYPE elements"),
+    (r"^ttl::Time::unix", "std-op", r"Add>::add\(d, self\.d\)",
+     "epoch offset + TTL overflows only for TTLs beyond ~5.8e11 years; a TTL is not a builder parameter (C20) and C03 ranges over sub-second to hours"),
+    (r"^ttl::Time::get_ttl$", "std-op", r"Sub>::sub\(self\.d, ",
+     "self.d - elapsed is evaluated only on the else branch of `elapsed >= self.d`"),
+    (r"^<TransparentHasher as std::hash::Hasher>::write$", "std-op", r"copy_from_slice",
+     "both copies are between slices of equal length: data (8 bytes) <- bytes[..8], data[..bytes.len()] <- bytes with bytes.len() <= 8"),
+    (r"::(LFUPolicy|AsyncLFUPolicy)::add$", "std-op", r"Vec::drain\(sample, .*RangeFrom",
+     "drain(new_len..) with new_len = sample.len() - 1 <= len (the sample is non-empty here, see the index entry)"),
     (r"^<TransparentHasher as std::hash::Hasher>::write$", "index", r"bytes|data",
      "bytes[..8] is taken only when bytes.len() > 8, data[..bytes.len()] only when bytes.len() <= 8"),
 ]
@@ -99,6 +107,20 @@ def builder_options_always_some(facts):
     return n >= 5, "%d constructions" % n
 
 
+# std operations documented to panic on overflow / invalid arguments (time arithmetic above all:
+# `Instant + Duration`, `SystemTime + Duration`, `Duration + Duration`, ... panic where the
+# checked_* forms return None), slice copies with unequal lengths, out-of-range Vec edits
+STD_PANICKING = re.compile(
+    r"<std::time::(Instant|SystemTime|Duration) as std::ops::(Add|Sub|Mul|Div|AddAssign|SubAssign|MulAssign|DivAssign)"
+    r"|Duration::(from_secs_f32|from_secs_f64|mul_f32|mul_f64|div_f32|div_f64)$"
+    r"|copy_from_slice$|clone_from_slice$|swap_with_slice$"
+    r"|Vec::(<[^>]*>::)?(remove|swap_remove|insert|drain|split_off|swap)$"
+    r"|VecDeque::(<[^>]*>::)?(remove|swap_remove_back|insert|drain|split_off)$"
+    r"|RefCell::(<[^>]*>::)?(borrow|borrow_mut)$"
+    r"|Iterator::step_by$|::chunks$|::chunks_exact$|::windows$|::split_at$|::split_at_mut$"
+    r"|thread::Builder::spawn$")
+
+
 def panic_sites(fl):
     """Enumerate panic-capable sites of the bodies that belong to this flavour or are shared."""
     facts = fl.facts
@@ -128,6 +150,9 @@ def panic_sites(fl):
                         out.append((b, bi, t, "index"))
                 elif "panicking::" in c or callee_matches(c, "unwrap_failed") or callee_matches(c, "begin_panic"):
                     out.append((b, bi, t, "panic"))
+                elif STD_PANICKING.search(c) or STD_PANICKING.search(t.get("resolved") or ""):
+                    if user_code(b) and not t["sp"].get("exp"):
+                        out.append((b, bi, t, "std-op"))
     return out
 
 
@@ -204,10 +229,13 @@ def check_panic_sites(rep, fl, rule="R20.2"):
         elif kind == "panic":
             a = [show(norm(x)) for x in b.call_args(t)]
             desc = " ".join(a)[:120]
+        elif kind == "std-op":
+            desc = "%s(%s)" % (short(b.callee_of(t)), ", ".join(show(norm(x)) for x in b.call_args(t)))
+            desc = desc[:160]
         if cls is None:
             # audited table
             for fre, k2, ore, why in AUDITED:
-                if re.search(fre, b.spath) and (k2 == kind or (k2 == "index" and kind == "index") or (k2 == "unwrap" and kind == "unwrap") or (k2 == "panic" and kind == "panic")) and re.search(ore, desc):
+                if re.search(fre, b.spath) and (k2 == kind or (k2 == "index" and kind == "index") or (k2 == "unwrap" and kind == "unwrap") or (k2 == "panic" and kind == "panic") or (k2 == "std-op" and kind == "std-op")) and re.search(ore, desc):
                     cls = "audited: " + why
                     break
         site = "%s %s" % (kind, desc[:90])
@@ -263,8 +291,108 @@ def check_finalize(rep, fl, rule="R20.1"):
 
 def check_C20(rep, fl):
     check_finalize(rep, fl)
+    check_builder_plumbing(rep, fl)
     check_panic_sites(rep, fl)
     props_sketch.check_sketch_sizing(rep, fl, "R20.3")
     props_sketch.check_bloom_sizing(rep, fl, None)
     props_life.check_unwraps(rep, fl)
     props_locks.check_lock_order(rep, fl, rule="R20.4")
+
+
+# ----------------------------------------------------------------------------------------
+# R20.5 builder plumbing: every tunable reaches the place that uses it, unchanged
+# ----------------------------------------------------------------------------------------
+
+CORE = "cache::builder::CacheBuilderCore"
+SIMPLE_SETTERS = {  # setter -> field it must write (frozen table: names are the public API)
+    "set_num_counters": "num_counters", "set_max_cost": "max_cost", "set_buffer_items": "buffer_items", "set_buffer_size": "insert_buffer_size",
+    "set_metrics": "metrics", "set_ignore_internal_cost": "ignore_internal_cost", "set_cleanup_duration": "cleanup_duration",
+}
+REBUILD_SETTERS = {"set_key_builder": "key_to_hash", "set_coster": "coster", "set_update_validator": "update_validator", "set_callback": "callback", "set_hasher": "hasher"}
+
+
+def check_builder_plumbing(rep, fl, rule="R20.5"):
+    facts = fl.facts
+    adt = facts.adts.get(CORE)
+    fields = [f["name"] for f in adt["variants"][0]["fields"]] if adt else []
+    if len(fields) < 12:
+        rep.missing(rule, fl, "CacheBuilderCore fields (%d)" % len(fields))
+        return
+    for m, fld in sorted(SIMPLE_SETTERS.items()):
+        b = facts.body(CORE + "::" + m)
+        ws = stmt_nodes(b, lambda s: s["pl"]["l"] == 1 and s["pl"]["p"])
+        ok = len(ws) == 1 and field_last(ws[0][2]["pl"])[0] == fld
+        if ok:
+            v = norm(b.rvalue_expr(ws[0][2]["rv"], True))
+            param = V(b.local_name.get(2, "arg2"))
+            ok = v == param and norm(return_expr(b)) == V("self")
+        rep.check(ok, rule, fl, b, m, "%s(v) writes v into %s and returns the builder" % (m, fld), "%s does not store its argument into `%s` (only): the configured value is lost or lands in another tunable" % (m, fld))
+    for m, fld in sorted(REBUILD_SETTERS.items()):
+        b = facts.body(CORE + "::" + m)
+        ags = agg_nodes(b, CORE)
+        ok = len(ags) == 1
+        bad = []
+        if ok:
+            f = agg_fields(ags[0][3])
+            param = V(b.local_name.get(2, "arg2"))
+            for name in fields:
+                v = f.get(name)
+                if name == fld:
+                    good = v == param or (v is not None and v[0] == "agg" and v[2].endswith("Option::Some") and v[3][0] == param)
+                elif name.startswith("marker"):
+                    good = v is not None
+                else:
+                    good = v == norm(F(V("self"), name))
+                if not good:
+                    bad.append("%s = %s" % (name, show(v) if v is not None else "?"))
+        rep.check(ok and not bad, rule, fl, b, m, "%s rebuilds the builder copying every other field unchanged" % m,
+                  "%s copies the wrong field: %s (a tunable configured before this call is silently replaced)" % (m, "; ".join(bad)))
+    # public wrappers forward to the core setter with their own argument
+    n = 0
+    for m in list(SIMPLE_SETTERS) + list(REBUILD_SETTERS):
+        b = facts.body(fl.builder + "::" + m, required=False)
+        if b is None:
+            continue
+        n += 1
+        cs = calls_to(b, CORE + "::" + m)
+        ok = len(cs) == 1
+        if ok:
+            a = [norm(x) for x in b.call_args(cs[0][1])]
+            ok = a[0] == norm(F(V("self"), "inner")) and a[1] == V(b.local_name.get(2, "arg2"))
+            e = norm(return_expr(b))
+            ok = ok and e[0] == "agg" and agg_fields(e).get("inner") is not None and is_call(agg_fields(e)["inner"], CORE + "::" + m)
+        rep.check(ok, rule, fl, b, m, "%s::%s forwards its argument to the core builder" % (short(fl.builder), m), "%s::%s does not forward to CacheBuilderCore::%s" % (short(fl.builder), m, m))
+    if n < 12:
+        rep.missing(rule, fl, "only %d builder wrappers found" % n)
+    # finalize consumes every tunable
+    fin = fl.code(fl.builder + "::finalize")
+    inner = F(V("self"), "inner")
+    rs = calls_to(fin, fl.ring + "::new")
+    ok = len(rs) == 1 and norm(fin.call_args(rs[0][1])[1]) == norm(F(inner, "buffer_items"))
+    rep.check(ok, rule, fl, fin, "buffer_items -> ring", "buffer_items sizes the get buffer", "finalize does not size the get buffer with buffer_items")
+    pn = calls_to(fin, fl.processor + "::new")
+    ok = len(pn) == 1
+    if ok:
+        a = [norm(x) for x in fin.call_args(pn[0][1])]
+        ok = a[1] == norm(F(inner, "ignore_internal_cost")) and a[2] == norm(F(inner, "cleanup_duration"))
+    rep.check(ok, rule, fl, fin, "flags -> processor", "ignore_internal_cost and cleanup_duration reach the processor", "finalize does not hand ignore_internal_cost / cleanup_duration to the processor")
+    at, entry = dataflow(fin)
+    mo = calls_to(fin, "metrics::Metrics::new_op")
+    ok = len(mo) == 1
+    if ok:
+        sts = [expand_state(fin, s, hist=True) for s in at.get((mo[0][0], term_idx(fin, mo[0][0])), set())]
+        ok = bool(sts) and all(feval(A(F(inner, "metrics")), s) is True for s in sts)
+        cm = calls_to(fin, fl.policy + "::collect_metrics")
+        ok = ok and len(cm) == 1 and block_dominates(fin, mo[0][0], cm[0][0])
+    rep.check(ok, rule, fl, fin, "metrics flag", "Op metrics (shared with the policy) are created exactly when the metrics flag is set", "the metrics flag no longer decides whether Op metrics are created and shared with the policy")
+    cache_f = None
+    for bi, si, st, e in agg_nodes(fin, fl.cache.split("::")[-1]):
+        cache_f = agg_fields(e)
+    ok = cache_f is not None
+    if ok:
+        k2h = cache_f.get("key_to_hash")
+        ok = k2h is not None and mentions(k2h, norm(F(inner, "key_to_hash")))
+        for fld, src in (("coster", "coster"), ("callback", "callback")):
+            v = cache_f.get(fld)
+            ok = ok and v is not None and mentions(norm(fin.expand(v)), norm(F(inner, src)))
+    rep.check(ok, rule, fl, fin, "key builder / coster / callback", "the configured KeyBuilder, Coster and CacheCallback are the ones installed in the cache", "finalize installs another KeyBuilder / Coster / CacheCallback than the configured one")
